@@ -473,8 +473,10 @@ class The(ResultQuantifier[T]):
 
     def evaluate(self) -> TypingUnion[Iterable[T], T, UnificationDict]:
         try:
-            result = self._evaluate_()
-            result = self._process_result_(result)
+            # like An, evaluate concretely even when called inside a symbolic_mode/rule_mode block.
+            with symbolic_mode(mode=None):
+                result = self._evaluate_()
+                result = self._process_result_(result)
         finally:
             # also when the evaluation raised, otherwise the next evaluation starts from stale state.
             self._reset_cache_()
